@@ -574,3 +574,11 @@ def replay(case, seed):
     finally:
         system.dispose(s)
     return r['violations']
+
+# a subset of the units is executed again in other environments (child interpreters): see core.run_variants
+ENV_VARIANTS = [{'name': 'python-O', 'flags': ['-O']}]
+
+def variant_units(tier, seed, name):
+    pred = lambda uid, p: p.get('kind') in ('bfs', 'create-matrix') and not p.get('cli')
+    return [u for u in units('quick', seed) if pred(u[0], u[1])]
+
